@@ -132,9 +132,9 @@ def mp2(prog, rep):
     inner = [c for c in body.calls if c.is_(TC + "TransactionsForAccount::add")]
     rep.floor("MP2", len(inner), 2, "per-account add calls in TransactionsContainer::add")
     for c in inner:
-        k2_site_guarded(rep, "MP2", f"container:add<=total-count:{c.line}", body, c.bb, chk,
+        k2_site_guarded(rep, "MP2", rep.nth("container:add<=total-count"), body, c.bb, chk,
                         "a transaction can be added without the total-count check", c.where())
-        rep.check(body.outcome_edges(c)["kind"] == "try", "MP2", f"container:inner-propagated:{c.line}",
+        rep.check(body.outcome_edges(c)["kind"] == "try", "MP2", rep.nth("container:inner-propagated"),
                   "a refused per-account add is not propagated", c.where())
     ent = [c for c in body.calls if c.matches(r"hash::map::VacantEntry::<.*>::insert$")]
     for e in ent:
@@ -186,7 +186,7 @@ def mp3(prog, rep):
                         for a in adds:
                             all_ok |= set(body.outcome_edges(a)["ok"])
                         good = good or (bool(all_ok) and body.must_pass_edges(all_ok, c.bb))
-                        rep.check(good, "MP3", f"tracked-insert<=add-ok:{c.line}",
+                        rep.check(good, "MP3", rep.nth("tracked-insert<=add-ok"),
                                   "a transaction is tracked as contained although neither "
                                   "container accepted it", c.where())
     rep.floor("MP3", n, 2, "contained_txs.insert sites")
